@@ -44,4 +44,59 @@ theorem lookup_setVar (vars : List (String × Val)) (n : String) (v : Val) :
     simp only [h', Bool.false_eq_true, if_false]
     rw [find_append_none vars n v h']
 
+
+/-- Assigning one variable does not change what another one holds. -/
+theorem lookup_setVar_ne (vars : List (String × Val)) (n m : String) (v : Val) (h : m ≠ n) :
+    lookupVar (setVar vars m v) n = lookupVar vars n := by
+  have hmn : (m == n) = false := by simpa using h
+  unfold lookupVar setVar
+  cases ha : vars.any (·.1 == m)
+  case true =>
+    simp only [if_true]
+    have : (vars.map fun p => if p.1 == m then (m, v) else p).find? (·.1 == n) = vars.find? (·.1 == n) := by
+      clear ha
+      induction vars with
+      | nil => rfl
+      | cons p ps ih =>
+        simp only [List.map_cons, List.find?_cons]
+        by_cases hp : (p.1 == m) = true
+        · have hpn : (p.1 == n) = false := by
+            have : p.1 = m := by simpa using hp
+            rw [this]; exact hmn
+          simp only [hp, if_true, hmn, hpn]
+          exact ih
+        · have hp' : (p.1 == m) = false := by simpa using hp
+          simp only [hp', Bool.false_eq_true, if_false]
+          cases hq : (p.1 == n)
+          · exact ih
+          · rfl
+    rw [this]
+  case false =>
+    simp only [Bool.false_eq_true, if_false, List.find?_append]
+    cases hq : vars.find? (·.1 == n) with
+    | some x => simp
+    | none => simp [List.find?, hmn]
+
+/-- The parameter binding loop of `createEnv` does not touch the non-parameter symbols. -/
+theorem lookup_bind_other (binds : List (String × Val)) (n : String) (hn : n ∉ binds.map (·.1)) :
+    ∀ vars, lookupVar (binds.foldl (fun vs (p : String × Val) => setVar vs p.1 p.2) vars) n = lookupVar vars n := by
+  induction binds with
+  | nil => intro vars; rfl
+  | cons b bs ih =>
+    intro vars
+    simp only [List.map_cons, List.mem_cons, not_or] at hn
+    simp only [List.foldl_cons]
+    rw [ih hn.2, lookup_setVar_ne _ _ _ _ (fun e => hn.1 e.symm)]
+
+/-- A variable list that holds only nulls yields only nulls. -/
+theorem lookup_nulls_isNull (decls : List (String × Ty)) (n : String) :
+    (lookupVar (decls.map fun (p : String × Ty) => (p.1, Val.null p.2)) n).isNull = true := by
+  unfold lookupVar
+  cases h : (decls.map fun (p : String × Ty) => (p.1, Val.null p.2)).find? (·.1 == n) with
+  | none => rfl
+  | some x =>
+    have := List.mem_of_find?_eq_some h
+    simp only [List.mem_map] at this
+    obtain ⟨p, _, rfl⟩ := this
+    rfl
 end BlocV.Lemmas
